@@ -37,7 +37,7 @@ func (c19) Assumptions() []string {
 	return []string{"token-level key order comes from encoding/json's Decoder.Token stream (internal/jsonorder)", "cross-process comparison relies on Go giving each process fresh map/hash seeds"}
 }
 
-var orderNames = []string{"a", "b", "c", "d", "e", "zeta", "Alpha", "é", "0", "10", "2", "_x"}
+var orderNames = []string{"a", "b", "c", "d", "e", "zeta", "Alpha", "é", "0", "10", "2", "_x", "", " "} // "" is a property name like any other
 
 type orderGen struct {
 	c       *fw.Case
